@@ -15,9 +15,6 @@ NOT_APPLICABLE = {
     "C10": "Inequalities/orthogonality to tolerance over arbitrary float tensors (clamps, "
            "Gram-Schmidt, normalisation): no state, schedule or exact discrete sub-domain for a "
            "TLA+ model to decide; see DESIGN.md section 5.",
-    "C12": "Symbolic identity over real angles with trigonometric terms plus a least-squares fit; "
-           "TLC cannot manipulate it and an exact-lattice evaluation would use TLC as a "
-           "calculator only; see DESIGN.md section 5.",
 }
 
 # properties whose check is not built yet (kept current as the work proceeds)
